@@ -128,6 +128,15 @@ def shard(P, ver, idx, nshards, n, seed):
 
 
 def run(R):
+    _run(R)
+    # objects the LIBRARY builds itself (text extractor, from_rh_vector, CLI, the repository's own tests)
+    # are judged by the same oracles through icontract contracts attached to the real classes
+    from .. import contracts
+    contracts.session(R, "C15")
+    R.require("contract:temporal_vector")
+
+
+def _run(R):
     R.rule = RULE
     R.require("group-structure", "group-values", "score-preserving")
     R.assumptions = ["specification order of the groups: v2 E,RL,RC / CDP,TD,CR,IR,AR; v3 E,RL,RC / CR,IR,AR,MAV,MAC,MPR,MUI,MS,"
